@@ -102,7 +102,7 @@ TEXT = {
                 "upstream locations may contain ':'), C14_parse_render_ann_partial (the same for annotations with 1..n ids and arbitrary message bytes, "
                 "assuming the decidable PEM contract PemRoundTrip), C14_fields_ref and C14_fields_prop (every accepted text has a ':' on every body "
                 "line and carries exactly the canonical sequence of known fields with the returned values: a missing, repeated or out-of-order "
-                "field is rejected, no text yields two values for a field), C14_parse_canonical_ref_partial, C14_F11_witness. Totality: the model is "
+                "field is rejected, no text yields two values for a field), C14_parse_canonical_ref_partial, C14_render_injective (two recordable entries of any kind with the same text are the same entry; C14_ref_text_ne_prop_text: kinds are never confused), C14_F11_witness. Totality: the model is "
                 "a total function; the only index expressions of the Go parsers (lines[0], lines[1], lines[2:]) are guarded. The model is compared "
                 "with ParseEntryText (class, error kind, all fields) and with entries recorded through the real API (stored text and read-back "
                 "fields); panics are recovered per case; the property (re-render fixed point + canonical field sequence, for all three kinds incl. "
